@@ -464,6 +464,9 @@ fn main() {
             let threads = job["threads"].as_array().unwrap().clone();
             let sleeps = job.get("sleeps_us").and_then(Value::as_array).cloned().unwrap_or_default();
             let n = threads.len();
+            // lockstep: every thread waits for all the others before EACH call (all threads have equally many calls), so that
+            // the same phase of n calls overlaps as much as the machine allows; otherwise only the start is synchronised
+            let lockstep = job.get("lockstep").and_then(Value::as_bool).unwrap_or(false);
             let barrier = std::sync::Arc::new(std::sync::Barrier::new(n));
             let mut handles = Vec::new();
             for (ti, calls) in threads.into_iter().enumerate() {
@@ -478,6 +481,9 @@ fn main() {
                             if *us > 0 {
                                 std::thread::sleep(std::time::Duration::from_micros(*us));
                             }
+                        }
+                        if lockstep {
+                            barrier.wait();
                         }
                         let mut r = handle_caught(req);
                         r["thread"] = json!(ti);
